@@ -4,6 +4,7 @@ import (
 	"encoding/json"
 	"fmt"
 	"math/rand"
+	"regexp"
 	"strings"
 	"time"
 
@@ -30,6 +31,7 @@ type c01Scn struct {
 	Strip    bool     `json:"strip"`
 	Wrap     bool     `json:"wrap"`
 	Exact    bool     `json:"exact"`
+	Interim  bool     `json:"interim"`
 	Depth    int      `json:"depth"`
 	Cmds     []string `json:"cmds"`
 	Outs     []string `json:"outs"`
@@ -84,7 +86,7 @@ func c01Run(s *c01Scn, va c01Variant, seedv int64) verdict {
 
 	for i := 0; i < s.NC; i++ {
 		cmds[i] = concretise(s.Cmds[i], nil)
-		outs[i] = concretise(s.Outs[i], rng)
+		outs[i] = concretiseMax(s.Outs[i], rng, s.ReadSize)
 
 		if strings.TrimSpace(s.Expect[i]) != "" {
 			v.Nontrivial = true
@@ -166,6 +168,10 @@ func c01Run(s *c01Scn, va c01Variant, seedv int64) verdict {
 
 	if s.Exact {
 		opOpts = append(opOpts, opoptions.WithExactMatchInput())
+	}
+
+	if s.Interim {
+		opOpts = append(opOpts, opoptions.WithInterimPromptPattern([]*regexp.Regexp{regexp.MustCompile(`(?m)^\(interim-\d+\)\s?$`)}))
 	}
 
 	got := []string{}
